@@ -777,3 +777,29 @@ func sameNonZeroAlts(a, b *ir.Expr) bool {
 	}
 	return len(sa) > 0 && sameSet(sa, sb)
 }
+
+// collectedGuard: the subject of a guard is an element of a list collected earlier (`for id in queue { ...checks...;
+// list = append(list, item) }` followed by `for item in list { use(item) }`): the guard holds for the element used when it
+// held for every element put into the list — each append into the list (built by appends alone) stands under a predicate
+// accepted by m, in the collecting function. raw: the unexpanded origin of the subject (it still names the list).
+func collectedGuard(c *Ctx, raw *ir.Expr, m ir.Matcher) bool {
+	w := c.W
+	found, all := false, true
+	raw.Walk(func(x *ir.Expr) bool {
+		if x.Op != "elem" || len(x.Args) < 1 {
+			return true
+		}
+		sites, ok := ir.BuiltSites(w.Expand(x.Args[0], 4))
+		if !ok || len(sites) == 0 {
+			return true
+		}
+		for _, s := range sites {
+			found = true
+			if s.Parent() == nil || !w.Guarded(s.Parent(), s, m, 2) {
+				all = false
+			}
+		}
+		return true
+	})
+	return found && all
+}
